@@ -1,7 +1,7 @@
 (* Entry points for the extracted driver: data -> data *)
 From Coq Require Import List ZArith Bool.
 Import ListNotations.
-Require Import DH.Common.Data DH.C16_Stoppers.Model.
+Require Import DH.Common.Data DH.C16_Stoppers.Model DH.C16_Stoppers.Check.
 Open Scope Z_scope.
 
 Definition d_kind (d : data) : skind :=
@@ -47,7 +47,15 @@ Fixpoint ref_run (p : params) (s : list job) (ops : list op) : list (option bool
       r :: ref_run p (fst (step p s o)) t
   end.
 
+Definition d_completed (d : data) : option bool := let k := dZ d in if k =? 0 then None else if k =? 1 then Some false else Some true.
+
+(* (op out (meta of job 0, meta of job 1, ...) (completed of job 0, ...)) *)
+Definition d_item (d : data) : item :=
+  mkItem (d_op (dnth 0 d)) (d_out (dnth 1 d)) (dmap d_meta (dnth 2 d)) (dmap d_completed (dnth 3 d)).
+
 Definition entries : list (Z * (data -> data)) :=
   [ (1601, fun d => e_run (run (d_params (dnth 0 d)) (init (dnat (dnth 1 d))) (dmap d_op (dnth 2 d))));
     (1602, fun d => ebool (proto (d_params (dnth 0 d)) (init (dnat (dnth 1 d))) (dmap d_op (dnth 2 d))));
-    (1603, fun d => elist e_out (ref_run (d_params (dnth 0 d)) (init (dnat (dnth 1 d))) (dmap d_op (dnth 2 d)))) ].
+    (1603, fun d => elist e_out (ref_run (d_params (dnth 0 d)) (init (dnat (dnth 1 d))) (dmap d_op (dnth 2 d))));
+    (* the oracle: () = accepted, (step clause) otherwise *)
+    (1604, fun d => elist eZ (monitor (d_params (dnth 0 d)) (minit (dnat (dnth 1 d))) 0 (dmap d_item (dnth 2 d)) 0)) ].
